@@ -37,7 +37,9 @@ func (f *Float) SubtractFromFloat(num uint) error {
 	// Convert the float to a string
 	strValue := strconv.FormatFloat(f.Value, 'f', -1, 64)
 
-	if !strings.Contains(strValue, ".") {
+	// the integer part can only be decremented textually when
+	// the value is positive and not smaller than num
+	if !strings.Contains(strValue, ".") || f.Value < float64(num) {
 		f.Value -= float64(num)
 		return nil
 	}
